@@ -35,7 +35,10 @@ PAD_WORDS = ["third", "party", "zlib", "ng", "src", "core", "x", "lib", "v1alpha
 PAD_JOINTS = ["-", "-", "/", ".", "-", "_"]
 BOUNDARY = [1, 2, 7, 8, 9, 15, 16, 17, 31, 32, 33, 63, 64, 65, 71, 72, 73, 77, 78, 79, 80, 81, 127, 128, 129,
             255, 256, 257, 1023, 1024, 1025, 4095, 4096, 4097]
-COUNTS = [1, 2, 3, 9, 10, 11, 16, 17, 31, 32, 33, 99, 100, 101, 199, 200]
+COUNTS = [1, 2, 3, 9, 10, 11, 15, 16, 17, 31, 32, 33, 40, 63, 64, 65, 99, 100, 101, 199, 200]
+# the number of patterns of a list, few / many: every single-pattern case TLC emits is replayed once within each
+COUNTS_FEW = [2, 3, 7, 8, 9, 10, 11, 15]
+COUNTS_MANY = [16, 17, 31, 32, 33, 40, 64, 65]
 JOINED = [71, 72, 73, 77, 78, 79, 80, 81, 82, 255, 256, 257, 4095, 4096, 4097]
 _PADCHARS = set("".join(PAD_WORDS) + "".join(PAD_JOINTS))
 assert not (_PADCHARS & set(MARKERS)) and FILL not in _PADCHARS and FILL not in MARKERS
@@ -146,9 +149,9 @@ def make_filler(rng, n):
     return "".join(out)
 
 
-def size_conc(rng, literals, mode, nreal=1, has_qm=False):
+def size_conc(rng, literals, mode, nreal=1, has_qm=False, count=None):
     """mode: 'fill' (many patterns / joined-length boundaries), 'block' (long patterns and names),
-    'huge' (names up to 64 KiB)"""
+    'huge' (names up to 64 KiB); count: the total number of patterns of the list (mode 'fill'), drawn if None"""
     tw = rng.choice(TWINS) if rng.random() < 0.35 else None
     ms = rng.sample(MARKERS, len(literals))
     if tw:
@@ -156,6 +159,11 @@ def size_conc(rng, literals, mode, nreal=1, has_qm=False):
         if len(set(ms)) != len(ms):
             ms = rng.sample(MARKERS, len(literals))
     marker = dict(zip(literals, ms))
+    if count is not None:       # the number of patterns is the stressed dimension: everything else stays small
+        pad = make_pad(rng, rng.choice([0, 0, 1]))
+        fillers = [make_filler(rng, rng.choice([2, 3, 5, 8])) for _ in range(max(0, count - nreal))]
+        k = rng.randint(0, len(fillers))
+        return SizeConc(marker, pad, rng.choice([1, 1, 2, 3]), fillers[:k], fillers[k:])
     if mode == "huge":
         L = rng.choice([21845, 21846, 32768]) if not has_qm else rng.choice([4096, 4097])
     elif mode == "block":
